@@ -394,7 +394,7 @@ class LibraryProcess:
 
 def confirm_library(run, v):
     detail = {}
-    ok_all = True
+    ok_all = False      # reproduced in the dev or the release profile (both recorded)
     for rel in (False, True):
         o = run.native([{'entry': 'process', 'device': 'T1', 'input': v['input'], 'n': v['n'], 'chunks': v.get('chunks') or [], 'tail': 1}], release=rel)[0]
         if v['rule'] in ('PANIC', 'HANG'):
@@ -437,7 +437,7 @@ def confirm_library(run, v):
                     written += bytes.fromhex(t[1:].split('!')[0])
             ok = (o.get('panic') is not None or got_calls != v['expected_calls'] or o.get('out') != v['expected_out'] or order or late or o.get('result') == 'ok')
         detail['release' if rel else 'dev'] = {'observation': o, 'reproduced': ok}
-        ok_all = ok_all and ok
+        ok_all = ok_all or ok
     return ok_all, detail
 
 
